@@ -61,4 +61,19 @@ index that is neither int32 nor int64 is cast to int64 first (ONNX `Gather` acce
 def intIndexGraph (x idx : TG) (code : Nat) : TG :=
   .gather 0 x (if code = 6 ∨ code = 7 then idx else .cast 7 idx)
 
+/-- `cumulative_sum(x, axis=, dtype=)` (`include_initial=False`) on an integer array of ONNX element type `t`: the
+elements are cast to the requested dtype first (unless it is uint64), the running sum is taken in int64, the result is
+cast to the result dtype (uint64 for unsigned operands without `dtype=`).  `none`: the call raises (uint64 operands;
+`dtype=uint64` on a signed operand). -/
+def cumsumGraph (x : TG) (t : Nat) (dtype : Option Nat) (axis : Int) : Option TG :=
+  let t1 := match dtype with | some d => if d = 13 then t else d | none => t
+  let x1 := astypeG t t1 x
+  if isUnsignedCode t1 && bitsOfCode t1 == 64 then none
+  else if !isUnsignedCode t1 && dtype == some 13 then none
+  else
+    let cs := TG.cumsum (astypeG t1 7 x1) (iscalar axis)
+    some (match dtype with
+      | none => if isUnsignedCode t1 then .cast 13 cs else cs
+      | some d => astypeG 7 d cs)
+
 end Ndx.TGraph
